@@ -7,7 +7,7 @@
    every *input* a spec accepts is refuted below (a sender completes or replaces its input from
    its own default / frozen value). *)
 From PG Require Import Common.Tactics Model.Typing Proofs.TypingBasics Proofs.TypingApply
-                       Proofs.TypingCompat Proofs.TypingTheorems.
+                       Proofs.TypingCompat Proofs.TypingExtend Proofs.TypingTheorems.
 Local Open Scope Z_scope.
 
 (* Applying a spec to a value it accepts yields a value it accepts again and maps to itself:
@@ -82,3 +82,27 @@ Theorem C04_compat_inputs_refuted :
   exists a b v, compat noq a b = true /\ wf a /\ wf b /\ accepts b v /\ apply false a v = Err ValueErr.
 Proof. exact literal_reading_refuted. Qed.
 Print Assumptions C04_compat_inputs_refuted.
+
+(* If c successfully extends base b, every value of the extended spec is accepted by b and b is
+   compatible with it.  Proved for a child without frozen / Enum / Union / Dict-schema parts and a
+   base without Union / Dict schema ([good], [base_ok]): Bool/Int/Float/Str/Object/Any/Dict() and
+   List/Tuple (all four fixed/variable cases, incl. sizes that meet) over them, any ranges, sizes,
+   noneable flags, defaults and nesting.  Missing: frozen and Enum children, Dict schemas
+   (schema-level shared-field corollary), Union. *)
+Theorem C04_extend_narrows_partial : forall q c b c',
+  no_quirks q -> good c -> base_ok b -> wf b ->
+  extend q c b = Ok c' ->
+  (forall v, total v = true -> conforms c' v -> accepts b v) /\ compat q b c' = true.
+Proof. exact extend_narrows_seq. Qed.
+Print Assumptions C04_extend_narrows_partial.
+
+Theorem C04_extend_enum_base_refuted :
+  exists c b c', extend (Quirks false false false false true) c b = Ok c' /\
+                 compat (Quirks false false false false true) b c' = false.
+Proof. exact enum_base_refuted. Qed.
+Print Assumptions C04_extend_enum_base_refuted.
+
+Theorem C04_extend_union_base_refuted :
+  exists c b c' v, extend noq c b = Ok c' /\ conforms c' v /\ total v = true /\ apply false b v = Err ValueErr.
+Proof. exact union_base_refuted. Qed.
+Print Assumptions C04_extend_union_base_refuted.
